@@ -49,6 +49,13 @@ def replay(rec: Dict[str, Any]) -> List[Tuple[str, Dict[str, Any], str]]:
         except BaseException as e:  # noqa: BLE001
             return [(f"string-form-does-not-compile-{exc_family(e)}|{feats}", {"query": text, "string_form": t1, "tagged": strip(rec)}, f"{type(e).__name__}: {e}")]
         t2 = str(p2)
+        try:
+            from .. import parsetrace
+
+            if parsetrace.normal(parsetrace.project_query(p1)) != parsetrace.normal(parsetrace.project_query(p2)):
+                return [(f"string-form-parses-to-another-tree|{feats}", {"query": text, "string_form": t1, "tagged": strip(rec)}, "the parser reads the string form as another program")]
+        except parsetrace.Unrepresentable:
+            pass
         if t2 != t1:
             return [(f"not-a-fixed-point|{feats}", {"query": text, "string_form": t1, "string_form_of_recompiled": t2, "tagged": strip(rec)}, "str(compile(str(p))) != str(p)")]
         for d in range(len(docs)):
@@ -70,6 +77,15 @@ def replay(rec: Dict[str, Any]) -> List[Tuple[str, Dict[str, Any], str]]:
                 return [(f"{disc}|{feats}", {"query": text, "string_form": t1, "doc": show(docs[d]["doc"]),
                                              "expected_values": str(exp)[:400], "tagged": strip(rec)}, disc)]
     return []
+
+
+def _string_form(text: str) -> Any:
+    import jsonpath
+
+    try:
+        return str(jsonpath.compile(text))
+    except BaseException:  # noqa: BLE001
+        return None
 
 
 def strip(rec: Dict[str, Any]) -> Dict[str, Any]:
@@ -148,6 +164,27 @@ def run(chk: Check, tier: str, seed: int) -> None:
         chk.nontrivial.add(texts_of(rec)[0])
         for sig, case, what in res:
             chk.violation(sig, case, what)
+    # ---- the parser itself: tokens and trees of every spelling and of every string form validated against Parser.tla,
+    # ---- and Parse o Render = identity (ParseBack.tla)
+    from .. import parsecheck
+
+    items: List[Dict[str, Any]] = []
+    seen = set()
+    for rec in recs:
+        prog = {"first": rec["q"]} if "q" in rec else {"first": rec["first"], "rest": rec["rest"]}
+        for t in texts_of(rec):
+            if t not in seen:
+                seen.add(t)
+                items.append({"text": t, "lim": None, **prog})
+    forms = [x for x in core.pmap(_string_form, [it["text"] for it in items]) if isinstance(x, str)]
+    for t in forms:
+        if t not in seen:
+            seen.add(t)
+            items.append({"text": t, "lim": None})
+    rejects, counters = parsecheck.validate(chk, items)
+    parsecheck.report(chk, rejects, "parser")
+    chk.extra["parser_model"] = counters
+    chk.traces += counters["recorded"]
     import jsonpath
 
     for rec in recs[7:9] + recs[-400:-398] + recs[-2:]:
@@ -159,7 +196,10 @@ def run(chk: Check, tier: str, seed: int) -> None:
     chk.exhaustive = True
     chk.rule = ("every program exported by MC_PathEval (one/names/namelists), MC_Filter (literal comparisons, functions, expression shapes), MC_Ext (all "
                 "extension universes, six alias spellings) and MC_Compound, in every spelling: compile, str, recompile, str, and evaluate the recompiled query "
-                "against the specification's result for the original AST; traces = texts round-tripped; distinct by first spelling")
+                "against the specification's result for the original AST; the tree the parser builds from the string form must be the tree it built from the "
+                "original; every spelling and every string form is also lexed and parsed by the real code and the (tokens, tree) pair validated by TLC "
+                "against Parser.tla, and the tree of every spelling mapped back to the program it was rendered from (ParseBack.tla); "
+                "traces = texts round-tripped + (tokens, tree) records validated; distinct by first spelling")
     chk.assumptions += ["'same matches on every document' is checked on the documents of each program's universe (chosen to distinguish the constructs)",
                         "the canonical text itself is never compared with a model serializer"]
 
